@@ -143,6 +143,27 @@ def run(ck: Check, prog: Program) -> None:
     ck.ob('RELATE-STRICT', 'batch: id→response map, one pop per call, IdentityError for misses and leftovers under strict', not p2)
     for c, line, msg in p2:
         ck.finding('RELATE-STRICT', brel.qualname, c, brel.module.rel, line, f'{c}: {msg}')
+    # the whole relate block runs for every batch response that is not a batch-level error: no other guard may skip it
+    if heads:
+        itn = [m for m in bcfg.nodes if m.kind == 'iter' and m.ast is heads[0].ast.iter]
+        start = maps[0] if maps else (itn[0] if itn else heads[0])
+        from ..absint import Interp as _I2
+        for g in guard_edges(bcfg, start):
+            ckd = classify_cond(prog, brel, g.src.ast)
+            if ckd.subject in (f'{bresp}.is_success',) or ckd.subject in (f'{bresp}.is_error',):
+                continue
+            if ckd.kind == 'truthy' and ckd.subject == bresp:
+                if not _I2(prog).always_truthy(V20 + '.BatchResponse'):
+                    ck.finding('RELATE-STRICT', brel.qualname, 'relate block skipped for an empty batch response', brel.module.rel, g.src.line,
+                               f'`{norm(g.src.ast)}` guards the id matching by the truthiness of the batch response, and BatchResponse defines __len__: '
+                               f'an EMPTY response array is falsy, so a server answering a batch of calls with [] is accepted without IdentityError')
+            else:
+                raise AnalysisError(f'{brel.qualname}: unrecognised guard `{norm(g.src.ast)}` around the id matching')
+    # ids of the wrong JSON type are rejected when the response is deserialised
+    from . import c06 as _c06
+    rfj = prog.func(V20 + '.Response.from_json')
+    ck.functions.add(rfj.qualname)
+    _c06._field_guards(ck, prog, rfj)
     # duplicates: strict ctor default
     binit = prog.func(V20 + '.BatchResponse.__init__')
     dd = binit.param_default('strict')
